@@ -37,8 +37,10 @@ type GenTx struct {
 
 // TxGen generates transactions for a history.
 type TxGen struct {
-	h   *History
-	rng *rand.Rand
+	// newRuntimes counts generated registrations of additional runtimes (distinct IDs).
+	newRuntimes int
+	h           *History
+	rng         *rand.Rand
 	// pending nonces inside the block being generated
 	pending map[staking.Address]uint64
 	// current holds the generated transactions of the block being executed.
@@ -468,7 +470,7 @@ func (g *TxGen) mkRegisterNode() *GenTx {
 		case n.Roles&node.RoleValidator != 0 && g.h.Sc.Runtime != nil && g.rng.IntN(2) == 0:
 			// validator -> compute-only
 			n.Roles = node.RoleComputeWorker
-			n.Runtimes = []*node.Runtime{{ID: g.h.Sc.Runtime.ID, Version: g.h.Sc.Runtime.Deployments[0].Version}}
+			n.Runtimes = []*node.Runtime{{ID: g.h.Sc.Runtime.ID, Version: rtVersion1}}
 		default:
 			n.Roles |= node.RoleObserver
 		}
